@@ -58,6 +58,8 @@ var histOps = []histOp{
 	{name: "Call(tV once,void; T3=w1)", target: "tV", inputs: []Input{{Label{"", 3, ""}, "w1"}}},
 	{name: "Call(tV once,void; T3=w2)", target: "tV", inputs: []Input{{Label{"", 3, ""}, "w2"}}},
 	{name: "Call(tR once; T3=w3)", target: "tR", inputs: []Input{{Label{"", 3, ""}, "w3"}}},
+	{name: "Call(tR once; no input)", target: "tR"},
+	{name: "Redefine(tR once; filter T1)", redef: true, target: "tR", hasF: true, filter: []int{1}},
 	{name: "Redefine(tA)", redef: true, target: "tA"},
 	{name: "Redefine(tA; filter T2)", redef: true, target: "tA", hasF: true, filter: []int{2}},
 	{name: "Redefine(tB; T1=x1)", redef: true, target: "tB", inputs: []Input{{Label{"a", 1, ""}, "x1"}}},
